@@ -2,7 +2,7 @@
 import json, os, shutil, concurrent.futures
 import lib
 
-def validate(rep, path, label, chunk=20000):
+def validate(rep, path, label, chunk=8000):
     lines = open(path).read().splitlines()
     chunks = [lines[i:i + chunk] for i in range(0, len(lines), chunk)]
     def one(i):
@@ -20,7 +20,10 @@ def validate(rep, path, label, chunk=20000):
             for p in r.prints:
                 if p[0] == 'MISMATCH':
                     rec = json.loads(chunks[i][p[1] - 1])
-                    rep.violation('roundtrip:%s:%s' % (rec['t'], '+'.join(sorted(p[2]))), dict(diff=sorted(p[2]), record=rec))
+                    kind = 'roundtrip:%s:%s' % (rec['t'], '+'.join(sorted(p[2])))
+                    if rec['t'] == 'dbl' and rec.get('de') == 9999 and rec['e'] == 308 and rec['d'][:16] >= [1, 7, 9, 7, 6, 9, 3, 1, 3, 4, 8, 6, 2, 3, 1, 5]:
+                        kind = 'double-top-of-range-rounds-to-infinity'     # 15 digits of a value above 1.797693134862315e308 exceed DBL_MAX
+                    rep.violation(kind, dict(diff=sorted(p[2]), record={k: (v if k not in ('d', 'dd') else v[:20]) for k, v in rec.items()}))
     return lines
 
 def nontrivial(d):
@@ -30,6 +33,8 @@ def nontrivial(d):
         return x in (0, 1, top, top >> 1, (top >> 1) + 1) or bin(x).count('1') <= 2 or bin(top ^ x).count('1') <= 2
     if d['t'] == 'text':
         return 34 in d['v'] or 39 in d['v']
+    if d['t'] in ('dbl', 'flt'):
+        return d['e'] <= -5 or d['e'] >= 15 or len(d['d']) <= 2
     if d['t'] == 'block':
         return len(d['v']) in (0, 9, 10, 99, 100, 999, 1000) or 10 in d['v']
     return True
@@ -40,7 +45,7 @@ def run(pid, tier):
                        '(every power of two +-1, complements, all-ones prefixes, powers of each base +-1, negatives) plus seeded boundary-biased random values; booleans; all texts up to 4 (quick) / 5 (thorough) '
                        'characters over {a, ", \', space, ;, ,} and random 7-bit texts up to 200; blocks of every length 0..300 (quick) / 0..1100 (thorough) with random bytes incl. terminators; '
                        'non-trivial = boundary value (<= 2 bits set or cleared, extremes), text with a quote, block at a header-length change or with a line feed inside')
-    rep.assumptions += ['floats / doubles: the emitted text is judged by C16 and decoding by C04; this check covers integers, booleans, texts and blocks',
+    rep.assumptions += ['floats / doubles: the decoded value must lie within 0.7 unit of the last emitted digit (15 / 6) of the original; exact expansions come from glibc printf; the text itself is judged by C16',
                         '8/16-bit results are read back through the 32-bit readers and narrowed by the caller, as applications do',
                         'not all 2^32 values: exhaustive on the 10-bit word model (TLC) and 2^8 / 2^16 on the real code, structured + random at full width']
     r = lib.tlc('MCRoundTrip', 'MCRoundTrip.cfg', timeout=900)
